@@ -14,6 +14,8 @@ def view(o, names):
     for nme in names:
         if nme == "pc":
             v.append(o[0] & M32)          # pc is compared modulo 2^32 (DESIGN section 6)
+        elif nme == "mem":
+            v.append([c for c in o[FIELDS.index(nme)] if c[1] != 0])      # explicit zero cells are a representation detail
         elif nme in FIELDS:
             v.append(o[FIELDS.index(nme)])
         elif nme in COUNTERS:
